@@ -1401,7 +1401,7 @@ func main() {
 	// phase 1: the traces (also tells the generator where the cut points are)
 	runAll(r, ops, par)
 	ops = nil
-	perScn := r.N(6, 12)
+	perScn := r.N(6, 10)
 	for _, s := range chosen {
 		tr, err := s.trace(family(s))
 		if err != "" {
@@ -1424,7 +1424,7 @@ func main() {
 		}
 	}
 	// two kills in a row
-	for i := 0; i < r.N(6, 150) && len(chosen) > 0; i++ {
+	for i := 0; i < r.N(6, 120) && len(chosen) > 0; i++ {
 		s := lib.Pick(rng, chosen)
 		tr, err := s.trace(family(s))
 		if err != "" {
@@ -1450,7 +1450,7 @@ func main() {
 		ops = append(ops, fmt.Sprintf("fbtrunc %s %d", lib.Pick(rng, []string{"f", "ff"}), n))
 	}
 	// timed kills
-	for i := 0; i < r.N(8, 160); i++ {
+	for i := 0; i < r.N(8, 120); i++ {
 		mode := lib.Pick(rng, []string{"x", "x", "f"})
 		sn := rng.Intn(3)
 		next := "same"
